@@ -183,10 +183,12 @@ impl IndicatorInstance for KaufmanInstance {
 		let direction = self.change.next(src).abs();
 		let volatility = self.volatility.next(src);
 
-		let er = if volatility == 0. {
-			0.
+		// `volatility` is a running sum: after a change of scale it may hold rounding residue (of either sign) that is
+		// larger than the movement inside the window. Mathematically `0 <= er <= 1`.
+		let er = if volatility > 0. {
+			(direction / volatility).min(1.)
 		} else {
-			direction / volatility
+			0.
 		};
 		let mut smooth = er.mul_add(self.fastest - self.slowest, self.slowest);
 
